@@ -230,7 +230,11 @@ func (e *kvElection) Start(ctx context.Context) error {
 			e.recordAcquireAttempt("failed")
 			e.recordFailure(classifyErrorType(err))
 			verifNote(e, "start_acq_failed", 0)
-			e.becomeFollower()
+			if !e.IsLeader() {
+				// another attempt of this instance (e.g. one left over from before a
+				// restart) may have won while this one was failing
+				e.becomeFollower()
+			}
 		}
 	}()
 
